@@ -333,6 +333,52 @@ def gen_plain(rng, allow_take=True, max_terms=3, product_only=False, min_ranks=0
     return dict(decl=decl, eins=[e], mapping={}, ext={}, env={"a": 3, "b": -2}, tags=tags), allr
 
 
+def rename_tensors(rng, case):
+    """give some tensors multi-character names, one of them containing another tensor's name (AB next to A, T1 next to T): tensor
+    names are user-chosen identifiers, nothing may depend on their spelling.  Applies to plain / spacetime cases (no bindings)."""
+    import re
+    if any(k in case for k in ("architecture", "bindings", "format")):
+        return case
+    names = list(case["decl"])
+    if len(names) < 2:
+        return case
+    ren = {}
+    a, b = rng.sample(names, 2)
+    style = rng.choice(["suffix", "suffix", "digit", "double"])
+    if style == "suffix":
+        ren[b] = a + rng.choice("BCXY")
+    elif style == "digit":
+        ren[b] = a + rng.choice("12")
+    else:
+        ren[a] = a + a
+        ren[b] = a
+        if len(names) > 2:
+            c = rng.choice([x for x in names if x not in (a, b)])
+            ren[c] = c + "Q"
+    # keep names distinct (case-insensitively: variables are lower-cased) and away from scalar / rank names
+    final = [ren.get(x, x) for x in names]
+    taken = {x.lower() for x in final}
+    ranks = {r for rs in case["decl"].values() for r in rs}
+    if len(taken) != len(final) or any(x in ranks or x.lower() in case.get("env", {}) for x in final):
+        return case
+    c2 = copy.deepcopy(case)
+    R = lambda x: ren.get(x, x)
+    c2["decl"] = {R(k): v for k, v in case["decl"].items()}
+    for e in c2["eins"]:
+        e["out"] = R(e["out"])
+        for t in e["terms"]:
+            t["factors"] = [((f[0], R(f[1]), f[2]) if f[0] == "t" else f) for f in t["factors"]]
+    m = c2.get("mapping") or {}
+    for sec in ("rank-order", "loop-order", "spacetime", "partitioning"):
+        if sec in m and m[sec]:
+            m[sec] = {R(k): v for k, v in m[sec].items()}
+    for out, parts in (m.get("partitioning") or {}).items():
+        for key, stack in parts.items():
+            parts[key] = [re.sub(r"uniform_occupancy\((\w+)\.", lambda mm: "uniform_occupancy(%s." % R(mm.group(1)), x) for x in stack]
+    c2["tags"] = list(case["tags"]) + ["renamed_tensors"]
+    return c2
+
+
 def add_rank_orders(rng, case, p=0.5):
     ro = {}
     for t in case["decl"]:
